@@ -11,6 +11,20 @@ theorem M.run_bind {α β : Type} (x : M α) (f : α → M β) (s : St) :
 
 @[simp] theorem M.run_reject {α : Type} (r : Reject) (s : St) : (reject r : M α).run s = .error r := rfl
 
+theorem M.ext {α : Type} {x y : M α} (h : x.run = y.run) : x = y := by
+  cases x; cases y; simp only at h; subst h; rfl
+
+@[simp] theorem M.pure_bind {α β : Type} (a : α) (f : α → M β) : (pure a >>= f) = f a :=
+  M.ext (by funext s; rfl)
+
+@[simp] theorem M.bind_pure {α : Type} (x : M α) : (x >>= pure) = x :=
+  M.ext (by
+    funext s
+    show (match x.run s with | .ok (a, s1) => Except.ok (a, s1) | .error e => .error e) = x.run s
+    cases x.run s with
+    | ok p => rfl
+    | error e => rfl)
+
 /-- Partial correctness: whenever `x` succeeds, its result satisfies `P`. -/
 def Post {α : Type} (x : M α) (P : α → Prop) : Prop := ∀ k a k', x.run k = .ok (a, k') → P a
 
